@@ -1,7 +1,8 @@
 /* C10 unit harness: uv__udp_sendmsgv of the working tree's src/unix/udp.c driven directly, with
  * sendmsg/sendmmsg/recvmsg/recvmmsg redirected to scripted fakes that record which datagram
  * indices every call was given.  Line protocol of `uvdriver c10v`:
- *   v <count> <shape> <outcome>...      outcome = k<n> (n messages taken / success) | e<errno>
+ *   v <count> <shape> [b<idx>]... <outcome>...   outcome = k<n> (n messages taken / success) | e<errno>;
+ *                                                b<idx>: datagram idx carries an unsupported address family
  * datagram i: nbufs = 1 + (i + shape) % 3, destination (i * (shape + 1)) % 3 (0 NULL, 1 v4, 2 v6). */
 #include <stdio.h>
 #include <stdlib.h>
@@ -83,7 +84,8 @@ static int fake_sendmmsg(int fd, struct mmsghdr* m, unsigned int n, int flags) {
 
 int main(void) {
   static char line[1 << 16];
-  static struct sockaddr_in a4; static struct sockaddr_in6 a6;
+  static struct sockaddr_in a4; static struct sockaddr_in6 a6; static struct sockaddr_storage bogus;
+  bogus.ss_family = AF_APPLETALK;
   a4.sin_family = AF_INET; a4.sin_port = htons(9); a6.sin6_family = AF_INET6; a6.sin6_port = htons(9);
   while (fgets(line, sizeof line, stdin)) {
     char* save; char* w = strtok_r(line, " \n", &save);
@@ -94,7 +96,10 @@ int main(void) {
     g_count = (unsigned) atoi(c); unsigned shape = (unsigned) atoi(sh);
     g_nouts = 0; g_pos = 0;
     int bad = 0;
+    static unsigned char badfam[MAXC + 1];
+    memset(badfam, 0, sizeof badfam);
     while ((w = strtok_r(NULL, " \n", &save)) != NULL && g_nouts < MAXC) {
+      if (w[0] == 'b' && w[1] >= '0' && w[1] <= '9') { unsigned bi = (unsigned) atoi(w + 1); if (bi < MAXC) badfam[bi] = 1; continue; }
       if ((w[0] != 'k' && w[0] != 'e') || w[1] < '0' || w[1] > '9') bad = 1;
       g_outs[g_nouts++] = w;
     }
@@ -106,8 +111,9 @@ int main(void) {
       for (unsigned j = 0; j < g_nbufs[i]; j++) g_bufs[i][j] = uv_buf_init(&byte, 1);
       unsigned d = (i * (shape + 1)) % 3;
       g_addrs[i] = d == 0 ? NULL : d == 1 ? (struct sockaddr*) &a4 : (struct sockaddr*) &a6;
+      if (badfam[i]) g_addrs[i] = (struct sockaddr*) &bogus;
     }
-    errno = 0;
+    errno = g_count % 2 ? EAGAIN : 0;   /* whatever an earlier system call left behind */
     int r = uv__udp_sendmsgv(99, g_count, g_bufs, g_nbufs, g_addrs);
     printf("ret %d left=%u\n", r, g_nouts - g_pos);
     for (unsigned i = 0; i < g_count; i++) free(g_bufs[i]);
